@@ -220,6 +220,29 @@ Example wf_rel_nonvacuous :
 Proof. split; [split; vm_compute; [lia | reflexivity] | vm_compute; reflexivity]. Qed.
 
 (* ------------------------------------------------------------------ sites *)
+(* the repaired path is always below the output package (which is why the repair can produce names of modules
+   that do not exist — finding F01f of C01 — but never a foreign import) *)
+Lemma repair_under : forall pkg m, repairs pkg m = true -> under pkg (repair pkg m) = true.
+Proof.
+  intros pkg m H. unfold repair. rewrite H.
+  unfold repairs in H. destruct pkg as [|x [|y sfx]]; try discriminate.
+  simpl tl in H. apply andb_true_iff in H. destruct H as [H _].
+  apply prefix_parts_spec in H. destruct H as [t ->].
+  change (x :: (y :: sfx) ++ t) with ((x :: y :: sfx) ++ t).
+  apply under_app. discriminate.
+Qed.
+
+Lemma registered_allowed : forall stdlib pkg core i,
+  allowed stdlib pkg core i = true -> allowed stdlib pkg core (registered pkg i) = true.
+Proof.
+  intros stdlib pkg core [l p] H. unfold registered. simpl.
+  destruct l as [|l]; [|exact H].
+  unfold allowed, abs_allowed in *. simpl in *.
+  destruct (repairs pkg p) eqn:E.
+  - rewrite (repair_under pkg p E). rewrite orb_true_r. reflexivity.
+  - unfold repair. rewrite E. exact H.
+Qed.
+
 Lemma static_ok_allowed : forall stdlib a pkg core tail k,
   pkg <> [] -> core <> [] ->
   static_ok stdlib a = true ->
@@ -227,14 +250,16 @@ Lemma static_ok_allowed : forall stdlib a pkg core tail k,
 Proof.
   intros stdlib a pkg core tail k Hp Hc H.
   unfold site_allowed. simpl.
-  destruct a as [l p|sfx| | | | | | | |au]; simpl in *; try reflexivity.
-  - destruct l; simpl; [|reflexivity].
-    unfold allowed, abs_allowed. simpl. rewrite H. reflexivity.
-  - unfold allowed, abs_allowed. simpl. rewrite (under_app core sfx Hc).
-    rewrite orb_true_r. reflexivity.
-  - unfold allowed, abs_allowed. simpl. rewrite (under_app pkg tail Hp).
-    rewrite orb_true_r. reflexivity.
-  - destruct au; [reflexivity | discriminate].
+  assert (Hi : forall i, instantiate a pkg core tail k = Some i -> allowed stdlib pkg core i = true).
+  { intros i Hi. destruct a as [l p|sfx| | | | | | | |au]; simpl in *; try discriminate; inversion Hi; subst i.
+    - destruct l; simpl; [|reflexivity]. unfold allowed, abs_allowed. simpl. rewrite H. reflexivity.
+    - unfold allowed, abs_allowed. simpl. rewrite (under_app core sfx Hc). rewrite orb_true_r. reflexivity.
+    - unfold allowed, abs_allowed. simpl. rewrite (under_app pkg tail Hp). rewrite orb_true_r. reflexivity.
+    - reflexivity. }
+  assert (Hcl : classified a = true) by (destruct a as [ | | | | | | | | |[|]]; simpl in *; auto).
+  rewrite Hcl. simpl.
+  destruct (instantiate a pkg core tail k) as [i|] eqn:E; [|reflexivity].
+  rewrite (Hi i eq_refl). simpl. apply registered_allowed. apply Hi. reflexivity.
 Qed.
 
 Lemma site_allowed_irrel : forall stdlib pkg core tail k f l a,
